@@ -3,7 +3,7 @@ import os, json, re, time, random, hashlib
 from concurrent.futures import ThreadPoolExecutor
 import cb
 from cb import ToolError, Report, log
-from checks import register, Drift
+from checks import register, Drift, ConformanceDrift
 from filechecks import bad_ids, checked, line_by_id
 
 
@@ -149,7 +149,7 @@ def daemon_common(pid, tier, seed, props, level="model_checking", extra=None):
         extra(rep)
     rc = rep.finish()
     if rc == 0 and drifts:
-        raise Drift("; ".join(drifts[:3]))
+        raise ConformanceDrift("; ".join(drifts[:3]))
     return rc
 
 
